@@ -4,6 +4,9 @@
 (*     u, v, q, r are lists of reduced rationals [n, d]; TLC checks u = q*v + r and    *)
 (*     the degree condition exactly, and that (q, r) equal the result of the division  *)
 (*     machine of PolyDiv.tla (repaired code, exact arithmetic) as polynomials.        *)
+(*  kind "gexact" (Complex<f64> on Gaussian integers, leading coefficient of v a unit  *)
+(*     1, -1, i, -i): u, v, q, r as real / imaginary integer lists; the same identity  *)
+(*     and degree condition over Gaussian integers (Poly.tla C... operators).          *)
 (*  kind "float" (general f64, Complex<f64>): the harness measures, in double-double,  *)
 (*     id_units = ||u - (q*v + r)||inf / (eps * (||u||inf + ||q||1 * ||v||inf));       *)
 (*     the guard 16 * (deg u + 1) is stated here.                                      *)
@@ -31,7 +34,17 @@ FloatOK(e) ==
        /\ (e.rzero \/ e.degr < e.degv)
        /\ e.id_units <= IdGuard(e.degu)
 
+\* Complex<f64> on Gaussian-integer data with a unit leading coefficient of v: exact, checked over Gaussian integers
+GExactOK(e) ==
+  LET gU == CP(e.u, e.ui)  gV == CP(e.v, e.vi)  gQ == CP(e.q, e.qi)  gR == CP(e.r, e.ri) IN
+  IF CLen(gV) = 0 \/ CIsZero(gV) THEN ~e.panic /\ ~e.ok
+  ELSE IF CAt(gV, CLen(gV)) = GZ THEN TRUE
+  ELSE /\ ~e.panic /\ e.ok /\ e.fits /\ CWell(gQ) /\ CWell(gR)
+       /\ CSame(gU, CAdd(CMul(gQ, gV), gR))
+       /\ (CLen(gR) = 0 \/ CIsZero(gR) \/ CTrimLen(gR) < CTrimLen(gV))
+
 Explained(e) == CASE e.op = "polydiv" /\ e.kind = "exact" -> ExactOK(e)
+                  [] e.op = "polydiv" /\ e.kind = "gexact" -> GExactOK(e)
                   [] e.op = "polydiv" /\ e.kind = "float" -> FloatOK(e)
                   [] OTHER -> FALSE
 
